@@ -222,7 +222,7 @@ Proof.
   intros Hwf HG. unfold do_attach. destruct (decide (afid = NOFID)).
   - unfold new_ref. destruct (decide (fid = NOFID)); [by cbn|].
     destruct (refs s !! fid) eqn:Hl; [by cbn|].
-    destruct (fs_err _).
+    destruct (nn_err _).
     + cbn. gsame HG. by rewrite delete_insert.
     + unfold fresh. cbn. eapply (G_bind s _ fid None); [..|exact HG]; sproj; try done; try (by rewrite app_nil_r).
       * eapply B_insert; [sproj; by rewrite insert_insert|done].
@@ -332,7 +332,7 @@ Proof.
   pose proof (G_lt _ _ _ HG Hb) as Hlt.
   destruct (negb d); [by cbn|].
   rewrite g_use_noop by done.
-  destruct (_ =? 1); [by cbn|]. destruct (_ =? 2); [by cbn|].
+  destruct (_ =? 1); [by cbn|]. destruct (_ || _); [by cbn|].
   destruct (_ =? 0).
   - unfold fresh. cbn [fst snd].
     assert (Hfr : ∀ X, released X = released s ++ [(e, RcCreate)] → next s ∉ rel X).
